@@ -11,6 +11,12 @@ import warnings
 
 def main():
     warnings.simplefilter("ignore")
+    try:  # die with the parent: an orphaned worker stuck inside a simulation must not keep a core busy
+        import ctypes
+        import signal
+        ctypes.CDLL("libc.so.6").prctl(1, signal.SIGKILL)
+    except Exception:
+        pass
     mod = importlib.import_module("harness.props." + sys.argv[1])
     fn = getattr(mod, sys.argv[2])
     out = os.fdopen(os.dup(1), "w")
